@@ -299,10 +299,13 @@ theorem respects_eq {T : Ty} (m : Machine T T.E) : Respects m ORel.eq where
 
 theorem mainnet_respects {T : Ty} {ops : EnvOps T} {io : InterpOps T} {m : Machine T T.E}
     (hm : MainnetConsumers ops io m) : Respects m ORel.errGas where
-  insertCall c f sh o o' h := by rw [hm.insertCall, hm.insertCall, insertCallOutcome_blind io f.interp _ o o' h]
-  insertCreate c f o o' h := by rw [hm.insertCreate, hm.insertCreate, insertCreateOutcome_blind io f.interp o o' h]
+  insertCall c f sh o o' h := by
+    rw [hm.insertCall, hm.insertCall]; unfold mainnetInsertCall; rw [insertCallOutcome_blind io f.interp _ o o' h]
+  insertCreate c f o o' h := by
+    rw [hm.insertCreate, hm.insertCreate]; unfold mainnetInsertCreate; rw [insertCreateOutcome_blind io f.interp o o' h]
   insertEofcreate c f o o' h := by
-    rw [hm.insertEofcreate, hm.insertEofcreate, insertEofcreateOutcome_blind io f.interp o o' h]
+    rw [hm.insertEofcreate, hm.insertEofcreate]; unfold mainnetInsertEofcreate
+    rw [insertEofcreateOutcome_blind io f.interp o o' h]
   lastCall c o o' h := by rw [hm.last, hm.last, lastFrameReturn_blind_call _ o o' h]
   lastCreate c o o' h := by rw [hm.last, hm.last, (lastFrameReturn_blind_create _ o o' h).1]
   lastEofcreate c o o' h := by rw [hm.last, hm.last, (lastFrameReturn_blind_create _ o o' h).2]
@@ -310,10 +313,13 @@ theorem mainnet_respects {T : Ty} {ops : EnvOps T} {io : InterpOps T} {m : Machi
 theorem optimism_respects {T : Ty} {ops : EnvOps T} {io : InterpOps T} {dep : T.E → Bool}
     {sys : T.E → Option Bool} {reg : Bool} {m : Machine T T.E}
     (hm : OptimismConsumers ops io dep sys reg m) : Respects m ORel.errGas where
-  insertCall c f sh o o' h := by rw [hm.insertCall, hm.insertCall, insertCallOutcome_blind io f.interp _ o o' h]
-  insertCreate c f o o' h := by rw [hm.insertCreate, hm.insertCreate, insertCreateOutcome_blind io f.interp o o' h]
+  insertCall c f sh o o' h := by
+    rw [hm.insertCall, hm.insertCall]; unfold mainnetInsertCall; rw [insertCallOutcome_blind io f.interp _ o o' h]
+  insertCreate c f o o' h := by
+    rw [hm.insertCreate, hm.insertCreate]; unfold mainnetInsertCreate; rw [insertCreateOutcome_blind io f.interp o o' h]
   insertEofcreate c f o o' h := by
-    rw [hm.insertEofcreate, hm.insertEofcreate, insertEofcreateOutcome_blind io f.interp o o' h]
+    rw [hm.insertEofcreate, hm.insertEofcreate]; unfold mainnetInsertEofcreate
+    rw [insertEofcreateOutcome_blind io f.interp o o' h]
   lastCall c o o' h := by rw [hm.last, hm.last, lastFrameReturnOp_blind_call _ _ _ _ o o' h]
   lastCreate c o o' h := by rw [hm.last, hm.last, (lastFrameReturnOp_blind_create _ _ _ _ o o' h).1]
   lastEofcreate c o o' h := by rw [hm.last, hm.last, (lastFrameReturnOp_blind_create _ _ _ _ o o' h).2]
